@@ -221,7 +221,7 @@ pub fn read_raw<T: Copy>(p: *const T) -> (r: T)
 /// `ptr::addr_of!(*r)` (rewrite rule R2b): a thin pointer to the start of the
 /// object, allowed to access the allocation the reference lives in.
 #[verifier::external_body]
-pub fn addr_of_ref<T: ?Sized>(r: &T) -> (p: *const u8)
+pub const fn addr_of_ref<T: ?Sized>(r: &T) -> (p: *const u8)
     ensures p@.addr == ref_addr(r), p@.provenance == ref_prov(r),
 {
     (r as *const T).cast::<u8>()
